@@ -39,6 +39,13 @@ class AlignmentType:
         "Line: {}\n".format(str(self))+
         "begin > end: {} > {}".format(gfapy.posvalue(begpos),
                                       gfapy.posvalue(endpos)))
+    if gfapy.islastpos(begpos) and not gfapy.islastpos(endpos):
+      # (also if begpos is 0$, the last position of an empty segment)
+      raise gfapy.FormatError(
+        "Line: {}\n".format(str(self))+
+        "Wrong use of $ marker\n"+
+        "{} >= {}$".format(gfapy.posvalue(endpos),
+                           gfapy.posvalue(begpos)))
     if gfapy.isfirstpos(begpos):
       if gfapy.isfirstpos(endpos):
         return ("pfx", True)
@@ -47,12 +54,6 @@ class AlignmentType:
       else:
         return ("pfx", False)
     elif gfapy.islastpos(begpos):
-      if not gfapy.islastpos(endpos):
-        raise gfapy.FormatError(
-          "Line: {}\n".format(str(self))+
-          "Wrong use of $ marker\n"+
-          "{} >= {}$".format(gfapy.posvalue(endpos),
-                             gfapy.posvalue(begpos)))
       return ("sfx", True)
     else:
       if gfapy.islastpos(endpos):
